@@ -1,3 +1,4 @@
+mod core_mp;
 mod core_pp;
 mod db;
 mod util;
@@ -19,6 +20,7 @@ fn main() {
     let mut sink = util::Sink::new();
     match cmd.as_str() {
         "core-pp" => core_pp::run(seed, cases, &mut sink),
+        "core-mp" => core_mp::run(seed, cases, &mut sink),
         "db-scenario" => {
             let name = arg(&args, "--name").unwrap_or_default();
             db::scenario(&name, &mut sink)
@@ -31,7 +33,7 @@ fn main() {
             db::run(seed, cases, &mut sink, &focus, nops, big, scale)
         }
         _ => {
-            eprintln!("usage: vharness <core-pp> --seed S --cases N --out DIR");
+            eprintln!("usage: vharness <core-pp|core-mp> --seed S --cases N --out DIR");
             std::process::exit(2);
         }
     }
